@@ -22,6 +22,10 @@ import time
 VERIF = os.path.dirname(os.path.dirname(os.path.abspath(__file__)))
 REPO = os.environ.get("VERIF_REPO", "/repo")
 BUILD = os.path.join(VERIF, ".build")
+if REPO != "/repo":
+    # scratch worktrees (testing a candidate fix / a seeded change without touching /repo) get their own
+    # overlay and driver binaries so they never disturb checks running against /repo
+    BUILD = os.path.join(VERIF, ".build", "alt-" + hashlib.sha1(REPO.encode()).hexdigest()[:10])
 LEAN = os.path.join(VERIF, "lean")
 HOOKS = os.path.join(VERIF, "hooks")
 EVID = os.path.join(VERIF, "evidence")
@@ -142,10 +146,10 @@ def lean_env():
     return e
 
 
-def run_extract():
-    """Regenerate lean/Banyan/Generated/*.lean from /repo. Fails closed."""
+def run_extract(only=()):
+    """Regenerate lean/Banyan/Generated/<Cxx>.lean from /repo. Fails closed."""
     ex = os.path.join(VERIF, "tools", "extract.py")
-    p = sh([sys.executable, ex, REPO, os.path.join(LEAN, "Banyan", "Generated")], check=False)
+    p = sh([sys.executable, ex, REPO, os.path.join(LEAN, "Banyan", "Generated")] + list(only), check=False)
     if p.returncode != 0:
         raise BuildError("fact extractor failed (unrecognised source shape):\n" + p.stdout[-3000:] + p.stderr[-3000:])
 
@@ -340,7 +344,7 @@ class Result:
             "obligations": obl, "discharged": dis, "checker_cmd": checker_cmd,
             "trusted_base": list(trusted_base) + (["bv_decide leaf lemmas (LRAT checker + Lean.ofReduceBool): " + ", ".join(sorted(self.bv_axioms))] if self.bv_axioms else []),
             "evaluations": self.evaluations, "distinct_nontrivial": len(self.nontrivial),
-            "rule": rule, "samples": self.samples[:8],
+            "rule": rule, "samples": self.samples[:12],
             "histogram": dict(sorted(self.hist.items())),
             "obligation_list": [{"name": n, "ok": ok, **({"detail": d} if d and not ok else {})} for n, ok, d in self.obligations],
             "known_findings_hit": sorted(self.known_hits),
@@ -436,7 +440,7 @@ def corpus_lines(prop):
 def static_stage(spec, R):
     """extract facts, build proofs, audit. Adds obligations to R."""
     try:
-        run_extract()
+        run_extract([spec.prop] + list(getattr(spec, "extract_also", [])))
         R.oblige("fact-extractor", True)
     except BuildError as e:
         R.oblige("fact-extractor", False, str(e))
@@ -480,10 +484,13 @@ def dynamic_stage(spec, R, rng, n, burst=False):
         k = spec.nontrivial(line, g)
         if k is not None:
             R.nontrivial.add(k)
-        if len(R.samples) < 6 and rng.random() < 0.02 + (0.5 if not R.samples else 0):
+        kd = spec.kind(line)
+        if len(R.samples) < 12 and R.hist.get("kind:" + kd, 0) <= 2 or (len(R.samples) < 12 and rng.random() < 0.001):
             R.samples.append({"case": line[:400], "impl": g[:400], "model": (l or "")[:400]})
         v = spec.oracle(line, g)
         if v is not None:
+            if v[0] == "known" and v[1] not in {k["id"] for k in load_known(spec.prop)}:
+                v = ("violation", "(finding %s is not listed in KNOWN_FINDINGS.txt) %s" % (v[1], v[2]))
             if v[0] == "known":
                 R.known_hits.setdefault(v[1], "%s | case: %s" % (v[2], line[:200]))
                 R.count("known:" + v[1])
